@@ -49,8 +49,12 @@ T = {
  "C20-4": ("C20", "Metadata::snapshot takes the state lock with try_read (falls back to an empty ClusterState when a writer holds it)", "a snapshot overlapping the write-lock section of a concurrent apply"),
  "C21-1": ("C21", "read_all's batch byte budget cut from 10 MiB to 1 MiB (`RECOVERY_BATCH_BYTES`)", "one WAL record larger than 1 MiB (a large client proposal) followed by a restart: replay stops in front of it"),
  "C21-2": ("C21", "vendored engine copy: batch read records the resume block index per planned range instead of per parsed entry", "a Raft log spanning more than one 10 MiB engine block with fewer than 2000 records per block, restart: only the first block is replayed"),
+ "C21-3": ("C21", "recover_from_wal treats the truncation point as exclusive (`split_off(index + 1)`)", "an acknowledged truncate(T) and a restart before index T is re-appended: the old-term entry at T is back"),
+ "C21-4": ("C21", "persist_peer_addr_if_needed writes a record only for an unknown peer (`map.insert(..).is_none()`)", "a known peer recorded with a different address at run time, then a restart: the stale address is reported"),
  "C22-1": ("C22", "reader's `delivered_in_segment = 0` dropped when it leaves a sealed segment that another node drained", "GETs for one topic through two different nodes after a rollover: the second node enters the next segment with a stale count and skips acknowledged entries"),
  "C22-2": ("C22", "update_leases returns early when no lease is missing (a node that only loses a lease keeps it)", "rollover to another node, a PUT arriving through a node whose apply lags by that rollover, forwarded to the old leader"),
+ "C22-3": ("C22", "forward_append no longer refreshes the leases before append_with_retry (the change of C23-4, aimed at the delivery clause)", "a PUT with the sealed segment's key reaching the old leader before the next lease tick: acknowledged, never delivered"),
+ "C22-4": ("C22", "read_one_for_topic no longer forces delivered_in_segment = sealed_count when a sealed segment reads empty", "a duplicate rollover for one threshold crossing (monitor tick while the first proposal is in flight): the cursor sticks in the empty phantom segment, later PUTs are never delivered"),
  "C23-1": ("C23", "update_leases scans for revocations only when the lease set has to shrink", "a rollover that leaves the node's lease count unchanged (to itself, or one topic lost and one gained) and a late append that is the first lease refresh afterwards"),
  "C23-2": ("C23", "update_leases returns early when the node leads no topic (the revocation of its last lease is skipped)", "a node whose only led topic rolls over to another node, then a late append for the sealed segment reaching it"),
  "C23-3": ("C23", "update_leases prunes revoked leases only when the lease set has to shrink (test taken before the new keys are inserted) - the mechanism of C23-1, written independently", "a rollover that swaps a lease (to itself, or two topics changing hands) and a late append with the old key before any other refresh"),
